@@ -31,6 +31,7 @@ func cmdProbe(path string) {
 
 // cmdProbeShort: debugging aid: documents of n distinct words, alone and with unrelated text around.
 func cmdProbeShort() {
+	fmt.Println("dictionary size of the full embedded corpus:", fullEmbedded().c.VerifDictSize())
 	words := []string{"alpha", "beta", "gamma", "delta", "epsilon", "zeta", "eta", "theta", "iota", "kappa", "lambda", "mu", "nu", "xi"}
 	for _, thr := range []float64{0.75, 0.8, 0.9} {
 		for n := 1; n <= 12; n++ {
